@@ -299,7 +299,11 @@ func (r *rewriter) rewriteFile(f *ast.File) {
 			}
 		case *ast.ChanType:
 			if !r.insideMake(c) {
-				r.errorf(n, "channel type outside make(chan ...) is not supported (channels must stay local)")
+				// a variable declared with a (bidirectional) channel type and given its channel later: `var c chan T` ... `c = make(chan T, n)`
+				if n.Dir != ast.SEND|ast.RECV {
+					r.errorf(n, "directional channel type outside make(chan ...) is not supported (channels must stay local)")
+				}
+				c.Replace(&ast.StarExpr{X: &ast.IndexExpr{X: sel("vs", "Chan"), Index: n.Value}})
 			}
 		}
 		return true
